@@ -220,7 +220,9 @@ class Fn:
         """True iff every path from just after `start` to `to` (default: function exit)
         passes a node in `through`"""
         to = to or [self.exit_node()]
-        r = self.reach(self.after(start), avoid=set(through), edge_ok=edge_ok)
+        through = set(through)
+        starts = [m for m in self.after(start) if m not in through]
+        r = self.reach(starts, avoid=through, edge_ok=edge_ok)
         # nodes in `through` directly after start are fine (they are avoided -> not in r)
         return not any(t in r for t in to)
 
